@@ -25,6 +25,10 @@ def run(chk, tier):
     vlib = lib_for("vlayout", "c++17", asserts=False)
     spec_checked.check_shapes(chk, vlib)
     spec_checked.check_block_length_state(chk, vlib)
+    # visiting a group walks its entries through cursor_range(c): only entries built from the cursor hand it on to the
+    # next entry / member (entries without stored fields advance it in their cursor constructor by the wire blockLength)
+    import spec_visit
+    spec_visit.check(chk, lib_for("vlayout", "c++17"))
     import gflow
     gflow.check_block_length_flow(chk)
     # which cursor primitive the generated accessor of each member forwards to: the last non-constant field of a block
